@@ -420,7 +420,12 @@ func baseToNumber(L *LState) int {
 		L.ArgError(2, "base out of range")
 	}
 
-	switch lv := L.CheckAny(1).(type) {
+	arg := L.CheckAny(1)
+	if n, ok := arg.(LNumber); ok && base != 10 {
+		// with an explicit base the argument is taken as a string: a number is converted first
+		arg = LString(n.String())
+	}
+	switch lv := arg.(type) {
 	case LNumber:
 		L.Push(lv)
 	case LString:
